@@ -32,11 +32,14 @@ import DDProps.C07Accept
 import DDProps.C07Levels
 import DDProps.C08
 import DDProps.C08Accept
+import DDProps.C08AcceptLe
+import DDProps.C08AcceptMore
 import DDProps.C08Sched
 import DDProps.C08Values
 import DDProps.C08Values2
 import DDProps.C09
 import DDProps.C09Accept
+import DDProps.C09Few
 import DDProps.C09Sched
 import DDProps.C09SchedKeep
 import DDProps.C10
@@ -58,6 +61,7 @@ import DDProps.C16Text
 import DDProps.C17
 import DDProps.C17Load
 import DDProps.C17Load2
+import DDProps.C17Load2Sched
 import DDProps.C17Reorder
 import DDProps.C18
 import DDProps.C19
